@@ -643,9 +643,11 @@ class SourceFile:
         p.eat("(")
         params = []
         while not p.at(")"):
-            if p.at("&") or p.at("mut") or p.at("self"):
-                # self receiver
-                while not p.at("self"): p.eat()
+            if p.at("&") or p.at("self") or (p.at("mut") and p.at("self", 1)):
+                # self receiver (`mut name: T` is an ordinary parameter, handled below)
+                while not p.at("self"):
+                    if p.peek().kind == "eof": raise Unsupported("receiver")
+                    p.eat()
                 p.eat("self"); params.append(("self", ("named", "Self", [])))
             else:
                 if p.at("mut"): p.eat()
